@@ -80,6 +80,10 @@ type Run struct {
 	Samples  []string
 	Oracle   int
 	Notes    []string
+	// OracleOnly: scenario functions of ANOTHER property are being reused for their
+	// implementation-side oracles; their case lines belong to that property's model and are
+	// not recorded for this property's correspondence.
+	OracleOnly bool
 }
 
 // Fail is an implementation-side property-oracle failure.
@@ -99,6 +103,10 @@ func NewRun(prop, tier string, seed uint64, out string) *Run {
 func (r *Run) Case(op, implOut string) {
 	r.mu.Lock()
 	defer r.mu.Unlock()
+	if r.OracleOnly {
+		r.Dist["cross-oracle-cases"]++
+		return
+	}
 	op = strings.ReplaceAll(op, "\n", " ")
 	implOut = strings.ReplaceAll(implOut, "\n", " ")
 	r.ops = append(r.ops, op)
